@@ -156,6 +156,14 @@ class ProgGen:
                 out.append(a)
         return out, latvars
 
+    def const_arg(self):
+        """a constant column of an aggregated / negated clause: a literal, or (half of the time) a bare identifier naming a
+        `const` item in scope (VC<n>: i32 = n, emitted by vgen/emit.py) - an expression, not a rule variable"""
+        v = self.rng.randrange(self.cfg.dom)
+        if getattr(self.cfg, 'named_consts', True) and v < 8 and self.rng.random() < 0.5:
+            return Raw('VC%d' % v, v)
+        return K(v)
+
     def gen_agg(self, fresh, bound, lower, nj=()):
         rng, cfg = self.rng, self.cfg
         joinable = [b for b in bound if b not in nj]
@@ -189,7 +197,7 @@ class ProgGen:
                 elif r < 0.75:
                     args.append(AWild())
                 elif r < 0.88:
-                    args.append(AExpr(K(rng.randrange(cfg.dom))))
+                    args.append(AExpr(self.const_arg()))
                 elif bound:
                     args.append(AExpr(int_expr(rng, bound, cfg.dom)))
                 else:
@@ -225,7 +233,7 @@ class ProgGen:
             elif r < 0.75:
                 args.append(AWild())
             elif r < 0.88 or not bound:
-                args.append(AExpr(K(rng.randrange(cfg.dom))))
+                args.append(AExpr(self.const_arg()))
             else:
                 args.append(AExpr(int_expr(rng, bound, cfg.dom)))
         return Neg(relname, args)
